@@ -227,6 +227,8 @@ class SocketConnection(BaseConnection):
                 if events:
                     data = self.sock.recv(self.bufsize)
                     if data is not None:
+                        if len(data) == 0 and getattr(self.sock, 'type', None) != socket.SOCK_DGRAM:
+                            break   # End of stream, the peer has closed: recv() would return b'' forever. Nothing to deliver.
                         self.rxqueue.put(data)
             except Exception:
                 self.exit_requested = True
